@@ -262,11 +262,11 @@ class EObject(ENotifer, metaclass=Metasubinstance):
         for owner, feature in seek:
             fvalue = owner.eGet(feature)
             if feature.many:
+                if self is owner:
+                    fvalue.clear()
+                    continue
                 if self in fvalue:
                     fvalue.remove(self)
-                    continue
-                elif self is owner:
-                    fvalue.clear()
                     continue
                 value = next((val for val in fvalue
                               if getattr(val, '_wrapped', None) is self),
@@ -1062,11 +1062,11 @@ class EProxy(EObject):
         for owner, feature in seek:
             fvalue = owner.eGet(feature)
             if feature.many:
-                if self in fvalue:
-                    fvalue.remove(self)
-                    continue
                 if owner is self:
                     fvalue.clear()
+                    continue
+                if self in fvalue:
+                    fvalue.remove(self)
                     continue
                 value = next((val for val in fvalue
                               if self._wrapped is val),
